@@ -88,15 +88,27 @@ class cview_trim_cols:
 
 
 # ================================================================================================================
-# CompositeCanvas.trim / trim_end / pad_trim_left_right: the REAL bodies against exactly the assumed canvas-protocol
-# contracts of contracts/proto_widget.py (cc_trim, cc_trim_end, cc_ptlr: clauses rows / cols / cnt / cursor), over
-# the real fields `shards`, `coords`, `_widget_info`.
+# CompositeCanvas.__init__ / cols / rows / trim / trim_end / pad_trim_left_right / pad_trim_top_bottom, SolidCanvas,
+# TextCanvas.__init__: the REAL bodies over the real fields (`shards`, `coords`, `_widget_info`, ...), registered as
+# `...#real-fields` aliases, against exactly the text of the assumed canvas-protocol contracts of
+# contracts/proto_widget.py that every container proof uses (cc_init, cc_trim, cc_trim_end, cc_ptlr, cc_pttb,
+# solid_init: clauses rows / cols / cnt / cursor / size), plus what the protocol's frame (`modifies`) says, plus
+# "the lists the canvas shares with the canvas it wraps are never written to", plus "a finalized canvas refuses".
 #
-# Stated abstraction of the shard list: an opaque value with two observers, rows_of (what CompositeCanvas.rows()
-# sums) and cols_of (what CompositeCanvas.cols() sums over the first shard); `[]` has 0 rows and 0 columns.  The
-# shard algebra (iterator-driven generators, outside the subset) is ASSUMED to act on the observers as its docstrings
-# say: shards_trim_top / shards_trim_rows / shards_trim_sides below.  The ghost clause `window` (top_off / left_off:
-# which part of the source is shown) is about content and stays with the bounded check of C02.
+# Stated abstraction of the shard list (below): explicit shards with their cview LIST OBJECTS + an unknown tail with
+# the observers len / rows / cols; `[]` has 0 rows and 0 columns.  The shard algebra (iterator-driven generators,
+# outside the subset) is ASSUMED to act on the observers as its docstrings say: shards_trim_top / shards_trim_rows /
+# shards_trim_sides below.  The ghost clause `window` (top_off / left_off: which part of the source is shown) is
+# about content and stays with the bounded check of C02.
+#
+# One place where the real code and the protocol's frame part: cc_trim / cc_trim_end / cc_pttb do not list `ncols`
+# under `modifies`, i.e. they promise cols() unchanged; a canvas trimmed down to no rows at all has shards == [] and
+# reports cols() == 0 (known finding C02-KF1-zero-row-composite-forgets-width, bounded part).  The clauses
+# `cols-kept-unless-no-row-is-kept` / `cols-kept-unless-no-row-is-left` below state what the code does, exactly;
+# the clause the statement asks for would be
+#     yield "cols-kept", cols_of(s.shards) == cols_of(old.shards, True)
+#     # FAILS-ON-TREE: CompositeCanvas(SolidCanvas("x", 3, 1)).trim(0, 0) / .trim_end(1) / .pad_trim_top_bottom(0, -1): cols() == 0
+# (not emitted: it is C02-KF1, and a failing deductive obligation here would turn C01 / C06 red as well).
 import z3  # noqa: E402
 
 from pyvc import shapes as S  # noqa: E402
@@ -804,6 +816,10 @@ def _xcheck_rjust():
     return "bytes-rjust-of-empty-agrees-with-cpython", not bad, f"b''.rjust(n) == b' ' * max(n, 0) for n in -4..8; mismatches: {bad}"
 
 
+# attribute / charset values: None or any value; Python constants (the 0 / "U" the code may put there) are individuals too
+TC_RLE = RL.RUNS(0, Opt(Opaque("Attr", lit=(int, str, bytes))))
+
+
 def _tc_setup(nrows_choices, all_given):
     def setup(st, self_obj, vals):
         k = nrows_choices[st.fork(len(nrows_choices))]
@@ -812,7 +828,7 @@ def _tc_setup(nrows_choices, all_given):
         vals["text"] = None if text_none else LRef(tuple(rows))
         for name in ("attr", "cs"):
             none = not all_given and st.fork(2) == 1
-            vals[name] = None if none else LRef(tuple(RL.RLE.fresh(st, f"{name}{i}") for i in range(k)))
+            vals[name] = None if none else LRef(tuple(TC_RLE.fresh(st, f"{name}{i}") for i in range(k)))
         if all_given:
             vals["maxcol"] = st.force(vals["maxcol"])
             if vals["maxcol"] is None:
@@ -851,6 +867,7 @@ def _tc_ensures(old, s, a, result):
     f = s.fields
     cw = a.check_width if isinstance(a.check_width, bool) else bool(a.check_width)
     yield "returns-none", result is None
+    yield "a-width-to-trust-was-given", cw or cur().force(a.maxcol) is not None  # (TypeError otherwise)
     text = f["_text"]
     yield "as-many-rows-as-lines-of-text", isinstance(text, LRef) and isinstance(text.seq, tuple) and len(text.seq) == tc.k
     mc_given = cur().force(a.maxcol)
@@ -871,6 +888,7 @@ def _tc_ensures(old, s, a, result):
             if before is not None:
                 L0 = RL.total(before[j])
                 q = V.arbitrary(f"{name}pos{j}")
+                yield f"row-{j}{name}-given-runs-do-not-extend-beyond-the-line", L0 <= W11.tlen(t1)  # (CanvasError otherwise)
                 yield f"row-{j}{name}-given-runs-kept-rest-is-none", both(implies(both(0 <= q, q < L0), RL.aeq(RL.at(f[name].seq[j], q), RL.at(before[j], q))),
                                                                           implies(both(L0 <= q, q < W11.tlen(t1)), opt_isnone(RL.at(f[name].seq[j], q))))
     cu = cur().force(a.cursor)
